@@ -807,7 +807,7 @@ def execute(trace, ctx=None):
                     expect_calls = 0
                 elif ec == 'past' and not has_prev:
                     # no previous value supplied: the statement says such a row is computed exactly once
-                    if got is None and not idx and not cfg.get('if_none'):
+                    if got is None and (not idx or n_calls_for_row < n_rows_same_args) and not cfg.get('if_none'):
                         raise Violation('expired-row-without-previous-value-not-computed',
                                         'key %s: expiry %s is in the past, no previous value was supplied (data=%s), if_none=False: '
                                         'f was not called and the row holds None' % (kt, e, data_mode), k)
@@ -821,7 +821,8 @@ def execute(trace, ctx=None):
                         expect_calls = 0
                     elif computed_ok():
                         expect_calls = 1
-                    elif got is None and not has_prev and not idx and not cfg.get('if_none'):
+                    elif got is None and not has_prev and (not idx or n_calls_for_row < n_rows_same_args) and not cfg.get('if_none'):
+                        # (another row may present f with the very same arguments - None values, defaults - and have been computed)
                         # "today" read as already expired + no previous value: the recorded finding
                         raise Violation('expired-row-without-previous-value-not-computed',
                                         'key %s: expiry %s counts as expired on %s, no previous value was supplied (data=%s), if_none=False: '
